@@ -5,13 +5,13 @@ import json, sys
 BASE = "trusted: neo-go v0.107.0 VM/ledger/native contracts and compiler library; contracts are compiled from the working tree at check time; the layered executor is bound to real signed blocks by replaying explored traces (traces_validated_against_impl)"
 
 CHECKS = {
- "C01": ("chainmc", "explicit-state BFS over operation sequences on the real Balance+Netmap bytecode, lock-step reference model + storage invariants",
-         "all sequences up to depth 4 (quick) / 7 (thorough) over a 75-operation alphabet (mint/burn/transfer/transferX/lock/ticks; negative, zero, exact, over-balance and 2^70 amounts; wrong-length addresses; contract caller), state-deduplicated; every transition checks sum==totalSupply, no negative record, supply moves only by mint/burn, refused => empty diff, notification stream replays to the balances, agreement with a map-based model", "4.1"),
+ "C01": ("chainmc", "two explicit-state BFS explorations over operation sequences on the real Balance+Netmap bytecode (the full alphabet; a small alphabet around accounts that are emptied and re-created, searched deeper), lock-step reference model + storage invariants",
+         "all sequences up to depth 4 (quick) / 7 (thorough) over a 75-operation alphabet (mint/burn/transfer/transferX/lock/ticks; negative, zero, exact, over-balance and 2^70 amounts; wrong-length addresses; contract caller), state-deduplicated; every transition checks sum==totalSupply, no negative record, supply moves only by mint/burn, refused => empty diff, notification stream replays to the balances, agreement with a map-based model; second exploration to depth 6 / 9 over 14 operations (whole-balance locks, burns and transfers of two owners, ticks): owners without an account record released by one tick", "4.1"),
  "C02": ("chainmc", "explicit-state BFS over (from,to,amount,signer-set) transfers interleaved with Alphabet operations; authorisation oracle on every balance decrease",
          "all sequences up to depth 4 / 6 over ~210 operations on a 3-key committee: every transfer crossed with signer sets {from,to,stranger,Alphabet,from+Alphabet,nobody}, committee-majority signers on the Alphabet-only methods, contract callers and contract-owned accounts (the token's own hash) debited from outside, wrong-length hashes; every decrease of any account must be covered by its witness, its own contract call or the Alphabet", "4.2"),
  "C04": ("chainmc", "explicit-state BFS over put/putNamed/putMeta/delete/setEACL/time sequences on Container+NNS+Balance+Netmap+NeoFSID, lock-step registry model + raw storage scan",
-         "all sequences up to depth 5 / 8 over 2 owners x 4 blobs (two version-field offsets) x names, strangers, a 10-year clock jump; after every step every getter for every id (incl. a never-put one), list/containersOf/count as sets, NNS alias records, tombstones and a raw scan of all six key families", "4.4"),
- "C06": ("chainmc", "two explicit-state BFS explorations over candidate/subscription/tick/next-block sequences (Netmap+Balance+probe subscribers on a 1-key committee; bare Netmap+probes on a 3-key committee with majority signers), lock-step model",
+         "all sequences up to depth 5 / 8 over 2 owners x 4 blobs (two version-field offsets) x names (registered by the contract, or on a domain the committee registered in advance), strangers, a 10-year clock jump; after every step every getter for every id (incl. a never-put one), list/containersOf/count as sets, NNS alias records, tombstones and a raw scan of all six key families", "4.4"),
+ "C06": ("chainmc", "three explicit-state BFS explorations over candidate/subscription/tick/next-block sequences (Netmap+Balance+probe subscribers on a 1-key committee; bare Netmap+probes on a 3-key committee with majority signers; a Netmap that keeps the longest history, 256 maps, with epoch steps of 1/2/126/127/128/255), lock-step model",
          "all sequences up to depth 5 / 7: newEpoch with epoch deltas -1/0/+1/+2/+3, jumps to 256 x epoch and to epoch + 2^32, by Alphabet/stranger/node, two probe subscribers (one rejects epoch 3), double and unauthorised subscriptions, several transactions per block and block advances; success iff witnessed, growing and not rejected; published maps in both formats, tick height, subscriber order, Balance unlock effect", "4.6"),
  "C07": ("chainmc", "explicit-state BFS to fixpoint over the complete reachable candidate state space (2 keys x 2 lists x states x info versions) x all operations x signer sets",
          "exhaustive on a 3-key committee: the frontier runs empty (961 states, ~105k transitions) with signer sets {node+Alphabet, Alphabet, node, Alphabet+other node, stranger, majority+node, majority}; both candidate lists, notifications, witness requirements, unknown states and malformed keys compared with a two-map model", "4.7"),
@@ -21,9 +21,9 @@ CHECKS = {
          "all sequences up to depth 5 / 8; until in the past/present/future and 0, zero-amount locks, partial and full burns, ticks by +1/+2, direct balance.newEpoch; every tick must release exactly the expired locks, once, with the remaining balance", "4.9"),
 
  "C10": ("chainmc", "explicit-state BFS over register/registerTLD/transfer/renew/setAdmin/time-step sequences on the real NNS bytecode, lock-step ownership model",
-         "all sequences up to depth 5 / 7 over 5 names (2nd..4th level, two TLDs), 3 owners, a contract receiver, an admin, wrong-signer variants, clock steps to exp-1/exp/exp+1 of the earliest-expiring name and +1 year; after every step totalSupply, balanceOf, tokensOf, ownerOf, properties (expiration, admin), isAvailable for every name, Transfer/Renew/SetAdmin notifications", "4.10"),
+         "all sequences up to depth 5 / 7 over 5 names (2nd..4th level, two TLDs), 3 owners, a contract receiver, an admin, wrong-signer variants, clock steps to exp-1/exp/exp+1 of the earliest-expiring name and +1 year, receiver contracts that accept, pass the name on from inside the callback, or refuse, a TLD that lives 2000 s only, names close to the ten-year cap; after every step totalSupply, balanceOf, tokensOf, ownerOf, properties (expiration, admin), isAvailable for every name and every top-level name, Transfer notifications", "4.10"),
  "C11": ("chainmc", "explicit-state BFS over ownership histories crossed with every mutating NNS method under signer sets {owner, former owner, admin, stranger, committee, Alphabet, new owner+admin}",
-         "all sequences up to depth 3 / 5 over ~150 operations on a 3-key committee (majority account differs from the Alphabet account) and, in a second exploration, on a 4-key committee with a half-size multisig: fresh second-level names for owners that do not witness, records, SOA, renew, setAdmin, transfer, sub-name registration, registerTLD, setPrice, TLD operations; an unauthorised call must fault with an empty storage diff, an authorised one must succeed with exactly the modelled effect", "4.11"),
+         "all sequences up to depth 3 / 5 over ~150 operations on a 3-key committee (majority account differs from the Alphabet account) and, in two more explorations, on a 4-key committee with a half-size multisig and on a three-level chain of names with three owners whose middle name runs out first: fresh second-level names for owners that do not witness, records, SOA, renew, setAdmin, transfer, sub-name registration, registerTLD, setPrice, TLD operations; an unauthorised call must fault with an empty storage diff, an authorised one must succeed with exactly the modelled effect", "4.11"),
  "C12": ("chainmc", "three explicit-state BFS explorations (record lists incl. sub-names/conflicts/SOA/expiry; a mid-level name expiring under a live parent; CNAME graphs) against a record-list model keyed by the enclosing registered name",
          "records: all sequences up to depth 3 / 5 over add/set/delete on a name, its unregistered sub-name and a sub-sub-name, four types, the 16th/17th value, duplicates, SOA, registration conflicts, expiry and take-over, one block per mutation so SOA serials are distinguishable; CNAME: all sequences up to depth 5 / 16 over edges among five names forming chains of 0..4 links, a 2-cycle, a self-loop, a target kept under another name; after every step getRecords, getAllRecords (order, ids), resolve with and without trailing dot for every name and type", "4.12"),
  "C14": ("chainmc", "explicit-state BFS over roster histories (add batches crossing the 127/255/256 counter boundaries, commits) plus an exhaustive grid of signature matrices from a symbol menu, against an independent ECDSA oracle",
@@ -33,19 +33,19 @@ CHECKS = {
  "C17": ("chainmc", "explicit-state BFS over vote/stranger/advance-blocks sequences on the NeoFS contract deployed without Notary, one exploration per Alphabet size, against a ballot model (voter set + height of the last counted vote)",
          "two-ballot timing exploration (setConfig votes for two ids, waits of 1/10/19/21 blocks) to depth 6 / 8 for n=2 (thorough also n=4); n=1..4 (quick) / 1..7 (thorough): all sequences up to threshold+2 / threshold+3 invocations of setConfig (two competing ids), cheque, alphabetUpdate and innerRingCandidateRemove by every member, a stranger and the candidate, with block gaps 1/19/20/21 and several votes per block; for n>=3 new voters are introduced in index order (the contract only compares keys for equality), n=3 additionally in every order in the thorough tier; the effect (config value, GAS at payee and contract, Alphabet list, candidate list, exactly one notification) must happen in exactly the invocation that completes floor(2n/3)+1 distinct votes", "4.17"),
  "C05": ("chainmc", "exhaustive grid over fee settings x Alphabet sizes {1,4,7} (and Inner Rings of 3 and 7 keys around Alphabets of 1 and 4) x owner-balance boundaries x naming modes x short histories, exact balance-delta oracle",
-         "2490 cases: ContainerFee {0,1,7} x ContainerAliasFee {0,3} x {unnamed, new name, name reused after delete, domain registered in advance} x balance {T-1,T,T+1,2T-1,2T} x history {put; put,put; put,setConfig(fee'),put; put,setConfig(0),put} plus Alphabet-node-as-owner rows; exact debit of the owner, exact credit of every Alphabet node account, N TransferX notifications with container-fee details, container stored; below the threshold the call must fault with an empty diff of all contracts", "4.5"),
+         "3360 cases: ContainerFee {0,1,7} x ContainerAliasFee {0,3} x {unnamed, new name, name reused after delete, domain registered in advance} x balance {T-1,T,T+1,2T-1,2T} x history {put; put,put; put,setConfig(fee'),put; put,setConfig(0),put; put, the same container put again} plus Alphabet-node-as-owner rows, the five-argument put and puts without a session token; exact debit of the owner, exact credit of every Alphabet node account, N TransferX notifications with container-fee details, container stored; below the threshold the call must fault with an empty diff of all contracts", "4.5"),
  "C19": ("chainmc", "six explicit-state BFS explorations of the NeoFS/Processing GAS ledger (Notary on with 1, 3 and 4 keys; off with 1, 2 and 4 stored keys, where decisions are vote-collected) against a ledger model on the real native GAS balances, plus an exhaustive emit/acceptance grid",
          "ledger: all sequences up to depth 4 / 6 over deposits (0, 1, 9000 GAS, 9000 GAS+1; receiver data nil/20/19 bytes/ignore marker; foreign signer), direct and non-GAS payment-hook calls, withdraw (-1,0,1,9000,9001; owner/stranger), cheque, candidate add/remove, fee changes; contract GAS == received - cheques, exact fees to the right payees, Deposit notification <=> GAS transfer, refused => empty diff on contracts and GAS. emit: Alphabet contract index {0,2} x Inner Ring size 1..7 x g in [0,256]/[0,4096] plus powers of 2/10 boundaries up to 10^12 x signer {own node, other node, Alphabet multisig, stranger}: exact shares, conservation, g<2 faults; Proxy/Processing/Alphabet x {GAS, NEO, non-GAS contract} acceptance", "4.19"),
  "C20": ("chainmc", "seven explicit-state BFS explorations (Reputation, Audit, container size estimations at base epochs 10, 126 and 254, NeoFSID, Netmap/NeoFS configuration) against multiset/map models with all-combination read-back",
-         "all put sequences up to depth 3..4 / 4..6 per store over epochs {0,1,127,128,255,256,257,65535,65536} (encodings that are prefixes of one another), 2 containers, 2-3 nodes/peers/owners, 2 values, configuration keys {'',a,ab,abc,b}; after every step every getter and listing for every (epoch, container, node, owner, key) combination; estimation access rules (node of the previous map, witnessed, existing container), audit access rules (Inner Ring member, witnessed), cleanup deltas 3/4 on put and on tick incl. a raw storage scan; an extra list element is tolerated only when explained by the listed epoch-prefix finding", "4.20"),
+         "all put sequences up to depth 3..4 / 4..6 per store (Reputation also with 130 values for one id, past the one-byte running number) over epochs {0,1,127,128,255,256,257,65535,65536} (encodings that are prefixes of one another), 2 containers, 2-3 nodes/peers/owners, 2 values, configuration keys {'',a,ab,abc,b}; after every step every getter and listing for every (epoch, container, node, owner, key) combination; estimation access rules (node of the previous map, witnessed, existing container), audit access rules (Inner Ring member, witnessed), cleanup deltas 3/4 on put and on tick incl. a raw storage scan; an extra list element is tolerated only when explained by the listed epoch-prefix finding", "4.20"),
  "C03": ("chainmc", "exhaustive grid: every method of the eleven manifests compiled from the tree x nine signer sets x committee sizes 1..7, each case executed from one prepared base state, full storage/notification/token diff oracle",
          "5670 witness cases + 12288 argument-variation cases (every witness-requiring row with one argument at a time replaced by a boundary value of its type, signed by a stranger or by one member short of the Alphabet threshold, n=1,3,4: must be inert); witness cases: ~80 non-safe method rows (incl. calls placed in the block right after the NeoFSAlphabet role changed hands) (a hand-written table gives the argument vector and the documented witness requirement; manifest methods without a row are reported as uncovered, never failed) x {stranger, one Alphabet member, Alphabet 2/3+1, committee majority, named key, named key+Alphabet, named key+majority, the Inner Ring member outside the committee, floor(2n/3) single members}: insufficient witnesses => empty diff on all contracts, no notification, no GAS/NEO/NEOFS movement; sufficient => HALT (update: past authorisation, stopped by the version gate); ~90 safe-method rows with all witnesses => empty diff; verify of Proxy/Alphabet/Processing accepts exactly the documented multi-signatures", "4.3"),
  "C15": ("chainmc", "exhaustive enumeration of the finite artefact set (11 scripts, manifests, bindings, deployment order and its transpositions, versions); where a shipped script differs from a fresh compilation, dual-world lock-step exploration (same contract hash, shipped vs fresh executable) of the property drivers plus a method-table x integer-boundary differential",
-         "byte comparison of every embedded script/token list/manifest (read through contracts.GetFS/GetMain) with a fresh library compilation; on any script difference the verdict comes from execution: every C03 method row x integer-argument boundary values and the quick BFS explorations of the drivers that involve the contract are run in two worlds and every transition's outcome and successor state must coincide; GetFS() order deployed on a fresh chain (NNS-resolved dependencies) plus all adjacent transpositions; version() of all embedded and fresh contracts == VERSION; bindings regenerated byte-for-byte and every invoked method/arity matched against the manifest ABI by an independent go/ast pass", "4.15"),
+         "byte comparison of every embedded script/token list/manifest (read through contracts.GetFS/GetMain) with a fresh library compilation; on any script difference the verdict comes from execution: every C03 method row x integer-argument boundary values and the quick BFS explorations of the drivers that involve the contract are run in two worlds and every transition's outcome and successor state must coincide, and so must every case of the exhaustive grids that exercise the contract, among them the upgrade grid (every version x legacy storage case updated once to the sources and once to the shipped executable); GetFS() order deployed on a fresh chain (NNS-resolved dependencies) plus all adjacent transpositions; version() of all embedded and fresh contracts == VERSION; bindings regenerated byte-for-byte and every invoked method/arity matched against the manifest ABI by an independent go/ast pass", "4.15"),
  "C13": ("deploymc", "stateless schedule/crash exploration of the real deploy.Deploy by iterative deviation bounding (default schedule, then all enumerated one-deviation schedules: sleep, crash-restart, adjacent reorder, a transaction held back in the pool, absent minority; thorough: pairs) on an in-process neo-go chain with Notary services under testing/synctest virtual time; exhaustive input grids for the three pure helpers",
          "quick: n=1..4 default (determinism self-check), every sleep(member, round, 1) and every crash at every second round with immediate restart for n<=3, adjacent transaction swaps for n=2, every absent minority for n=3,4 (~1450 complete runs of Deploy); thorough: n=1..7, sleeps of 1/3/150 rounds and crashes with two restart delays for n<=4, call-granular crash points, reorders for n<=3, minorities for n=3..7, two-deviation sleep pairs for n=2, all 2^32 heights of the transaction-window helper; oracle on every final chain: all runs return nil, roles designated to exactly the committee, NNS id 1, every system name resolves to exactly one contract with the supplied executable, 8+n contracts, no designation with an invalid witness ever submitted, a second run submits no deploy/update/register/addRecord/setRecord/designateAsRole and changes nothing", "3"),
  "C16": ("chainmc", "exhaustive grids: (contract x version around both bounds x synthetic legacy storage) driven through an old-version stub that calls management.update so the tree's _deploy(data,true) runs on that storage; and (contract x signer set x committee size) updating the real contracts to a scratch build of the same tree with the patch version +1",
-         "recorded dumps (testnet v0.15.4, mainnet v0.16, NNS testnet v0.17): the recorded old executables answer up to 300 reads per contract before, the tree's contract after the committee's update, lenient only where a migration is documented; 1130 window/migration cases: 11 contracts x {prev-1, prev, prev+1, 15999, 16000, 16999, 17000, 17999, 18000, 18999, 19000, 19999, cur-1, cur, cur+1} x layouts (un-prefixed/prefixed/mixed balance accounts incl. a lock account, un-prefixed/prefixed/mixed container and owner-index keys with eACL and alias, old-format netmap snapshots and candidates with ring sizes 3/10/12, stored subscriber hashes, owned TLDs with names and records, audit/reputation/neofsid/neofs/alphabet data) x notary flag {absent,false,true} x ballots {absent,empty,stale,fresh}: outside the window => FAULT by the version check with an empty diff; inside => HALT and every read-API answer equals what the generator stored (fresh ballot + notary=true must fault); ~300 gate cases for committees of 1,2,3,4,6,7 (incl. the main-chain contracts right after a role rotation): only the committee majority updates, version()+1, read API unchanged", "4.16"),
+         "recorded dumps (testnet v0.15.4, mainnet v0.16, NNS testnet v0.17): the recorded old executables answer up to 300 reads per contract before, the tree's contract after the committee's update, lenient only where a migration is documented; 1130 window/migration cases: 11 contracts x {prev-1, prev, prev+1, 15999, 16000, 16999, 17000, 17999, 18000, 18999, 19000, 19999, cur-1, cur, cur+1} x layouts (un-prefixed/prefixed/mixed balance accounts incl. a lock account, un-prefixed/prefixed/mixed container and owner-index keys with eACL and alias, old-format netmap snapshots and candidates with ring sizes 3/10/12 and a ring of 6 with two slots not written yet, update data with a decoy integer in front of the appended version, stored subscriber hashes, owned TLDs with names and records, audit/reputation/neofsid/neofs/alphabet data) x notary flag {absent,false,true} x ballots {absent,empty,stale,fresh}: outside the window => FAULT by the version check with an empty diff; inside => HALT and every read-API answer equals what the generator stored (fresh ballot + notary=true must fault); ~300 gate cases for committees of 1,2,3,4,6,7 (incl. the main-chain contracts right after a role rotation): only the committee majority updates, version()+1, read API unchanged", "4.16"),
 }
 
 NOT_YET = "check not built yet in this revision (work in progress; see DESIGN.md section 10)"
